@@ -60,6 +60,9 @@ def run_text_case(ref, wd, tmpd, canary, r, res, v, entry, rnd, tid):
     for d in (tmpd,):
         shutil.rmtree(d, ignore_errors=True)
         os.makedirs(d)
+    import tempfile
+    systmp = tempfile.gettempdir()
+    before_s = set(os.listdir(systmp))
     before_c = snapshot(canary)
     before_w = snapshot(wd)
     got, msg = tl.call_entry(ref, entry, la, le, kw, wd, nl_a, True, tag='c15')
@@ -68,12 +71,14 @@ def run_text_case(ref, wd, tmpd, canary, r, res, v, entry, rnd, tid):
     after_w = snapshot(wd)
     # files created/changed in the work dir other than the ones the harness wrote itself
     own = {'ref_c15.txt', 'act_c15.txt'}
-    outside = [p for p in after_w if not p.startswith('tmp' + os.sep) and p not in own and after_w[p] != before_w.get(p)]
+    tmprel = os.path.relpath(tmpd, wd)
+    outside = [p for p in after_w if not p.startswith(tmprel + os.sep) and p not in own and after_w[p] != before_w.get(p)]
     outside += [p for p in after_c if after_c[p] != before_c.get(p)]
+    outside += [os.path.join(systmp, p) for p in set(os.listdir(systmp)) - before_s]     # the system temporary directory is not the configured one
     ev = {'tid': tid, 'ev': 'Text', 'entry': entry, 'outcome': got, 'expectpass': bool(res['pass']),
           'tmpfiles': len(after_tmp), 'outside': len(outside), 'raised': 'none',
           'cmdfiles_exist': True, 'has_cmd': False, 'has_actual_cmd': False, 'actual_faithful': True, 'has_post': False,
-          'post_expected': bool(res['rdem'] and (o['isub'] or o['rem'] or o['pats'] or entry == 'string')),
+          'post_expected': bool(res['rdem'] and (res['effect'] or entry == 'string')),
           'diffs_match': True, 'exclusions': bool(o['isub'] or o['rem'] or o['pats'])}
     if got == 'error':
         ev['raised'] = msg.split(':')[0]
@@ -138,8 +143,14 @@ def run(chk):
     canary = common.subdir('c15_canary')
     with open(os.path.join(canary, 'keep.txt'), 'w') as f:
         f.write('canary\n')
+    # a second object whose configured temporary directory does not exist yet when the object is made (unittest builds
+    # test objects at collection time, before any setUp creates directories); the directory is created afterwards
+    tmpd_late = os.path.join(wd, 'tmp_made_later')
+    shutil.rmtree(tmpd_late, ignore_errors=True)
+    ref_late = tl.make_ref(tmpd_late)
     os.makedirs(tmpd, exist_ok=True)
     ref = tl.make_ref(tmpd)
+    late_used = 0
     events = []
     detail = {}
     cases = []
@@ -157,7 +168,9 @@ def run(chk):
     for r, res in cases[:ncases] + empties:
         v = rnd.randrange(3)
         entry = rnd.choice(['string', 'string', 'file'])
-        ev, msg = run_text_case(ref, wd, tmpd, canary, r, res, v, entry, rnd, tid)
+        late = tid % 6 == 5
+        late_used += int(late)
+        ev, msg = run_text_case(ref_late if late else ref, wd, tmpd_late if late else tmpd, canary, r, res, v, entry, rnd, tid)
         events.append(ev)
         detail[tid] = {'A': r['A'], 'E': r['E'], 'opts': res['o'], 'variant': v, 'entry': entry,
                        'actual_lines': tl.lines(r['A'], v), 'reference_lines': tl.lines(r['E'], v), 'message': msg[:1500]}
